@@ -25,8 +25,10 @@ pub enum Op {
 pub trait Hooks: Sync {
     /// called *before* the described operation is executed
     fn point(&self, op: Op, addr: usize, loc: &'static Location<'static>);
-    /// payload cell access, never a scheduling point
+    /// payload cell access
     fn cell(&self, op: Op, addr: usize, loc: &'static Location<'static>);
+    /// called *after* a store or read-modify-write has been executed
+    fn post(&self, addr: usize, loc: &'static Location<'static>);
     /// virtual clock in ns
     fn now_ns(&self) -> u64;
     /// called in the parent thread, returns a token for the new thread
@@ -86,6 +88,14 @@ pub fn active() -> bool {
 pub fn point(op: Op, addr: usize) {
     if let Some(h) = hooks() {
         h.point(op, addr, Location::caller());
+    }
+}
+
+#[inline]
+#[track_caller]
+pub fn post(addr: usize) {
+    if let Some(h) = hooks() {
+        h.post(addr, Location::caller());
     }
 }
 
@@ -196,7 +206,7 @@ impl Drop for Bracket {
 
 /// atomics with the std API that report every operation before executing it
 pub mod atomic {
-    use super::{point, Op};
+    use super::{point, post, Op};
     pub use std::sync::atomic::Ordering;
 
     macro_rules! int_atomic {
@@ -218,13 +228,16 @@ pub mod atomic {
                 #[track_caller]
                 pub fn store(&self, v: $t, o: Ordering) {
                     point(Op::Store, self as *const _ as usize);
-                    self.0.store(v, o)
+                    self.0.store(v, o);
+                    post(self as *const _ as usize)
                 }
                 #[inline]
                 #[track_caller]
                 pub fn swap(&self, v: $t, o: Ordering) -> $t {
                     point(Op::Rmw, self as *const _ as usize);
-                    self.0.swap(v, o)
+                    let r = self.0.swap(v, o);
+                    post(self as *const _ as usize);
+                    r
                 }
                 #[inline]
                 #[track_caller]
@@ -236,7 +249,9 @@ pub mod atomic {
                     f: Ordering,
                 ) -> Result<$t, $t> {
                     point(Op::Rmw, self as *const _ as usize);
-                    self.0.compare_exchange(c, n, s, f)
+                    let r = self.0.compare_exchange(c, n, s, f);
+                    post(self as *const _ as usize);
+                    r
                 }
                 /// never fails spuriously when hooks are compiled in
                 #[inline]
@@ -249,7 +264,9 @@ pub mod atomic {
                     f: Ordering,
                 ) -> Result<$t, $t> {
                     point(Op::Rmw, self as *const _ as usize);
-                    self.0.compare_exchange(c, n, s, f)
+                    let r = self.0.compare_exchange(c, n, s, f);
+                    post(self as *const _ as usize);
+                    r
                 }
                 /// unsynchronized load, reported as a load
                 ///
@@ -278,25 +295,33 @@ pub mod atomic {
                 #[track_caller]
                 pub fn fetch_add(&self, v: $t, o: Ordering) -> $t {
                     point(Op::Rmw, self as *const _ as usize);
-                    self.0.fetch_add(v, o)
+                    let r = self.0.fetch_add(v, o);
+                    post(self as *const _ as usize);
+                    r
                 }
                 #[inline]
                 #[track_caller]
                 pub fn fetch_sub(&self, v: $t, o: Ordering) -> $t {
                     point(Op::Rmw, self as *const _ as usize);
-                    self.0.fetch_sub(v, o)
+                    let r = self.0.fetch_sub(v, o);
+                    post(self as *const _ as usize);
+                    r
                 }
                 #[inline]
                 #[track_caller]
                 pub fn fetch_or(&self, v: $t, o: Ordering) -> $t {
                     point(Op::Rmw, self as *const _ as usize);
-                    self.0.fetch_or(v, o)
+                    let r = self.0.fetch_or(v, o);
+                    post(self as *const _ as usize);
+                    r
                 }
                 #[inline]
                 #[track_caller]
                 pub fn fetch_and(&self, v: $t, o: Ordering) -> $t {
                     point(Op::Rmw, self as *const _ as usize);
-                    self.0.fetch_and(v, o)
+                    let r = self.0.fetch_and(v, o);
+                    post(self as *const _ as usize);
+                    r
                 }
             }
         };
@@ -331,13 +356,16 @@ pub mod atomic {
         #[track_caller]
         pub fn store(&self, v: *mut T, o: Ordering) {
             point(Op::Store, self as *const _ as usize);
-            self.0.store(v, o)
+            self.0.store(v, o);
+            post(self as *const _ as usize)
         }
         #[inline]
         #[track_caller]
         pub fn swap(&self, v: *mut T, o: Ordering) -> *mut T {
             point(Op::Rmw, self as *const _ as usize);
-            self.0.swap(v, o)
+            let r = self.0.swap(v, o);
+            post(self as *const _ as usize);
+            r
         }
         #[inline]
         #[track_caller]
@@ -349,7 +377,9 @@ pub mod atomic {
             f: Ordering,
         ) -> Result<*mut T, *mut T> {
             point(Op::Rmw, self as *const _ as usize);
-            self.0.compare_exchange(c, n, s, f)
+            let r = self.0.compare_exchange(c, n, s, f);
+            post(self as *const _ as usize);
+            r
         }
         /// never fails spuriously when hooks are compiled in
         #[inline]
@@ -362,7 +392,9 @@ pub mod atomic {
             f: Ordering,
         ) -> Result<*mut T, *mut T> {
             point(Op::Rmw, self as *const _ as usize);
-            self.0.compare_exchange(c, n, s, f)
+            let r = self.0.compare_exchange(c, n, s, f);
+            post(self as *const _ as usize);
+            r
         }
         /// unsynchronized load, reported as a load
         ///
